@@ -77,7 +77,16 @@ impl RandomProp for DestFaults {
                 shx_samples: 0,
             })
         });
-        (prop_oneof![60 => workload(4, 0), 1 => big.boxed()], any::<bool>(), proptest::collection::vec(1usize..12, 1..6), prop_oneof![3 => Just(0u8), 1 => Just(1u8), 1 => Just(2u8), 1 => Just(3u8)], 0u8..vlib::io::FAULT_KINDS.len() as u8)
+        let many = (prop_oneof![Just(vlib::model::Ty::Point), Just(vlib::model::Ty::PointZ), Just(vlib::model::Ty::Multipoint), Just(vlib::model::Ty::Polyline)], 520usize..1100, 0u8..2).prop_flat_map(|(ty, n, fin)| {
+            let cfg = vlib::gen::GenCfg::new(vlib::gen::Profile::Small, false, 1, 2);
+            proptest::collection::vec(vlib::gen::geom(ty, cfg), 3).prop_map(move |pool| {
+                let geoms: Vec<vlib::model::Geom> = (0..n).map(|i| pool[i % pool.len()].clone()).collect();
+                let mut fins = vec![0u8; n + 1];
+                fins[n] = fin;
+                Workload { ty, geoms, fins, shx_samples: 0 }
+            })
+        });
+        (prop_oneof![60 => workload(4, 0), 1 => big.boxed(), 1 => many.boxed()], any::<bool>(), proptest::collection::vec(1usize..12, 1..6), prop_oneof![3 => Just(0u8), 1 => Just(1u8), 1 => Just(2u8), 1 => Just(3u8)], 0u8..vlib::io::FAULT_KINDS.len() as u8)
             .prop_map(|(w, with_shx, chunks, route, kind)| FaultCase { w, with_shx, chunks, route, kind })
             .boxed()
     }
